@@ -376,7 +376,7 @@ def bounded(seed, n_random, budget_s):
             cases += 1
             diffs, text = check_structure(style, secs, parent)
             for dd in diffs[:1]:
-                sig = "sphinx:type-field-after-param-ignored" if dd.startswith("SPHINX-TYPE-AFTER-PARAM") else f"{style}:" + "".join(ch for ch in dd.split(":")[0] if not ch.isdigit())[:40]
+                sig = f"{style}:" + "".join(ch for ch in dd.split(":")[0] if not ch.isdigit())[:40]
                 if sig not in sigs:
                     sigs.add(sig)
                     bad.append({"style": style, "docstring": text, "failure": dd, "signature": sig})
@@ -394,7 +394,6 @@ def replay_roundtrip(w, obligation, expects):
             if time.time() - t0 > 80:
                 break
             diffs, text = check_structure(st, secs, parent)
-            diffs = [d_ for d_ in diffs if not d_.startswith("SPHINX-TYPE-AFTER-PARAM")]     # listed known finding C13-F1
             if diffs:
                 return {"reproduced": True, "detail": f"{st}: {diffs[0]}", "input": {"style": st, "docstring": text}, "signature": f"{st}:roundtrip"}
     return {"reproduced": False, "detail": "every rendered structure of the catalogue parses back"}
